@@ -185,6 +185,41 @@ def rule_acndata(ck):
         ok = any(has_field(o, "kWhDelivered") for o in ops) and any({"max_battery_power", "period"} <= s and has_field(o, "disconnectTime") for o, s in zip(ops, sigs))
     ck.require(ok, "C15.R1", f, b["requested_energy"], ok="force_feasible: min(document energy, max power x stay x period length); otherwise the document energy",
                bad="the requested energy must be the document's kWhDelivered, capped (force_feasible) by max power x stay x period", sink="force-feasible-cap")
+    # ... exactly: by specialisation on the flag and an identity for the cap (term rewriting), with the session's own arrival /
+    # departure kept symbolic
+    from ..rules import gexpand, specialise
+    from .. import cas
+    keep = {x.id for x in (b.get("arrival"), b.get("departure")) if isinstance(x, ast.Name)}
+    if len(keep) == 2 and "force_feasible" in f.params:
+        S = cas.sp()
+        Pm, T, A_, D_ = S.symbols("Pm T A D", positive=True)
+        fl.keep = keep
+        try:
+            g = gexpand(fl, b["requested_energy"], n)
+        finally:
+            fl.keep = set()
+        doc = (f"{d}['kWhDelivered']", f'{d}["kWhDelivered"]')
+        off = specialise(g, {"force_feasible": False})
+        ck.require(canon(off) in doc, "C15.R8", f, b["requested_energy"], ok="without force_feasible the request is the document's delivered energy",
+                   bad=f"without force_feasible the requested energy is `{src(off, 60)}`, not the document's kWhDelivered (the cap is applied unconditionally or the value is altered)",
+                   sink="force-feasible:off")
+        on = specialise(g, {"force_feasible": True})
+        ok = False
+        why = f"`{src(on, 70)}` is not min(kWhDelivered, max_battery_power x stay x period/60)"
+        if isinstance(on, ast.Call) and call_name(on) in MIN_NAMES:
+            ops = on.args[0].elts if len(on.args) == 1 and isinstance(on.args[0], (ast.List, ast.Tuple)) else on.args
+            rest = [o for o in ops if canon(o) not in doc]
+            if len(ops) == 2 and len(rest) == 1:
+                env = {"max_battery_power": Pm, "period": T, b["arrival"].id: A_, b["departure"].id: D_}
+                try:
+                    z = cas.is_zero(cas.to_sympy(rest[0], env) - Pm * (D_ - A_) * T / 60)
+                except AnalysisError:
+                    z = None
+                if z is None:
+                    raise AnalysisError(f"_convert_to_ev: identity for the force_feasible cap not decided: {src(rest[0])}")
+                ok = bool(z)
+                why = f"the cap `{src(rest[0], 60)}` is not max_battery_power x (departure - arrival) x period / 60 (kW x periods x hours per period)"
+        ck.require(ok, "C15.R8", f, b["requested_energy"], ok="force_feasible: request = min(document energy, max power x stay x period/60)", bad=why, sink="force-feasible:on")
     # capacity function protocol arguments
     cf = [(nn, cc) for nn, cc in calls_in(fl) if isinstance(cc.func, ast.Subscript) and "capacity_fn" in canon(cc.func.slice)]
     for nn, cc in cf:
@@ -193,6 +228,18 @@ def rule_acndata(ck):
             all(("disconnectTime" in x and "connectionTime" in x) for x in [a[1]])
         ck.require(ok, "C15.R2", f, cc, ok="capacity_fn(requested energy, stay, voltage, period)", bad="the capacity function must be called as (requested energy, departure - arrival, voltage, period)",
                    sink="capfn-args")
+        if len(cc.args) == 4 and len(keep) == 2:
+            from ..flow import linear as _lin, Lin as _Lin
+            fl.keep = keep
+            try:
+                stay = fl.expand(cc.args[1], nn)
+            finally:
+                fl.keep = set()
+            ck.require(_lin(stay, norm=canon) == _Lin({b["departure"].id: 1, b["arrival"].id: -1}), "C15.R2", f, cc.args[1], ok="stay = departure - arrival of the session being built",
+                       bad=f"the stay handed to the capacity function is `{src(stay, 50)}`, not departure - arrival: the fit is computed for another duration", sink="capfn-stay")
+    # a mapping is only subscripted with a key on the edge where the key was found (generic contradiction rule)
+    from .. import pathtab
+    pathtab.contradicted_membership(ck, "C15.R2", f, fl, pathtab.table(fl, limit=20000), sink="convert:membership")
 
 
 def rule_stochastic(ck):
